@@ -28,6 +28,7 @@ pub mod mirilane;
 pub mod search;
 pub mod surface;
 pub mod surfgen;
+pub mod typed;
 pub mod c20;
 pub mod common;
 
